@@ -96,6 +96,7 @@ func init() {
 	})
 	reg(apiPkg+"Assume", func(it *Interp, g *G, fr *Frame, a []Value, cc *ssa.CallCommon) (Value, status) {
 		c := a[0].(BoolV)
+		it.flushAsserts() // assumptions are not retroactive
 		if c.T == nil {
 			if !c.C {
 				panic(pathEnd{Kind: "drop", Label: "assume", Msg: "assumption false"})
@@ -121,23 +122,7 @@ func init() {
 			}
 			return ok(nil)
 		}
-		neg := smt.Not(c.T)
-		it.nAssertQ++
-		res, model, err := it.Solver.Check(neg, it.vars)
-		if err != nil {
-			panic(pathEnd{Kind: "unsupported", Label: "solver", Msg: err.Error()})
-		}
-		switch res {
-		case smt.Sat:
-			it.recordViolation(&Violation{Kind: "assert", Label: label, Msg: "solver found values violating the assertion", Where: it.callerWhere(g)}, model)
-			// continue on the side where the assertion holds (if any)
-			if !it.feasible(c.T) {
-				panic(pathEnd{Kind: "fault", Label: label, Msg: "assertion violated on every value of this path"})
-			}
-			it.addPC(c.T)
-		case smt.Unknown:
-			panic(pathEnd{Kind: "unsupported", Label: "solver-unknown", Msg: "assertion query undecided: " + label})
-		}
+		it.deferAssert(c.T, label, it.callerWhere(g))
 		return ok(nil)
 	})
 	reg(apiPkg+"Reach", func(it *Interp, g *G, fr *Frame, a []Value, cc *ssa.CallCommon) (Value, status) {
@@ -157,6 +142,11 @@ func init() {
 		return ok(nil)
 	})
 	switchClasses[apiPkg+"Yield"] = "yield"
+	reg(apiPkg+"LogicalClock", func(it *Interp, g *G, fr *Frame, a []Value, cc *ssa.CallCommon) (Value, status) {
+		it.clockLogical = true
+		it.stubsSeen["clock: logical (strictly increasing concrete readings)"] = true
+		return ok(nil)
+	})
 	reg(apiPkg+"Cut", func(it *Interp, g *G, fr *Frame, a []Value, cc *ssa.CallCommon) (Value, status) {
 		panic(pathEnd{Kind: "cut", Label: argStr(a[0]), Msg: "path cut by the harness bound"})
 	})
